@@ -3,7 +3,7 @@
    unchanged" is decided by the oracle of harness/props/c09.py (implementation) and the correspondence; the
    theorems below are the facts it rests on.                                                              *)
 From Coq Require Import List NArith Bool.
-From TatsuV Require Import Base.PyStr Engine.Value Engine.Syntax Engine.Input Engine.Engine
+From TatsuV Require Import Base.PyStr Engine.Value Engine.Syntax Engine.Input Engine.Engine Engine.Calls Engine.CleanLaws
      Engine.InputProof Engine.Config Engine.ConfigProof.
 Import ListNotations.
 
@@ -30,6 +30,33 @@ Theorem C09_patterns_never_skip : forall text re_at isalnum isalpha lower ic (St
     end.
 Proof. exact pattern_never_skips. Qed.
 Print Assumptions C09_patterns_never_skip.
+
+(* ... skipped at the entry of lower-case rules: a call from a position and from behind the whitespace/comments after it
+   is the SAME call (same value, same end position, same frame otherwise) ... *)
+Theorem C09_lower_case_rule_skips_ws : forall text re_at isalnum isalpha lower upper ic unsafe rules ec act lineat n r rl f q,
+  get_rule rules r = Some rl -> r_tokn rl = false -> next_token text re_at ic (pos f) = Some q ->
+  peval text re_at isalnum isalpha lower upper ic unsafe rules ec act lineat (S n) (Call r) f
+  = peval text re_at isalnum isalpha lower upper ic unsafe rules ec act lineat (S n) (Call r) (goto f q).
+Proof. exact peval_call_skips_ws. Qed.
+Print Assumptions C09_lower_case_rule_skips_ws.
+
+(* ... and never at the entry of upper-case rules: the body starts exactly where the caller stands *)
+Theorem C09_upper_case_rule_never_skips : forall text re_at isalnum isalpha lower upper ic unsafe rules ec act lineat n r rl f,
+  get_rule rules r = Some rl -> r_tokn rl = true ->
+  peval text re_at isalnum isalpha lower upper ic unsafe rules ec act lineat (S n) (Call r) f =
+    match geval text re_at isalnum isalpha lower ic unsafe (fun _ u => u)
+                (pcall text re_at upper ic rules ec act lineat) n (r_exp rl) (push (newf (pos f))) tt with
+    | (Ok _ fb, _) =>
+      match fst (post_body upper ic ec act lineat rl r (pos f) fb) with
+      | ROk node np => Ok node (append (goto f np) node)
+      | RFail => Fail (cutseen f)
+      | RFatal x => Fatal x
+      end
+    | (Fail _, _) => Fail (cutseen f)
+    | (Fatal x, _) => Fatal x
+    end.
+Proof. exact peval_token_rule_never_skips. Qed.
+Print Assumptions C09_upper_case_rule_never_skips.
 
 (* nameguard *)
 Theorem C09_nameguard_blocks : forall text isalnum isalpha lower c tok pos ch,
